@@ -9,6 +9,7 @@ import (
 
 	"github.com/gobuffalo/pop/v6"
 	"github.com/gofrs/uuid"
+	"github.com/ory/herodot"
 	"github.com/ory/x/popx"
 	"github.com/pkg/errors"
 
@@ -91,6 +92,9 @@ func internalPaginationFromOptions(opts ...x.PaginationOptionSetter) (*internalP
 	}
 	if ip.PerPage == 0 {
 		ip.PerPage = defaultPageSize
+	}
+	if ip.PerPage < 0 {
+		return ip, errors.WithStack(herodot.ErrBadRequest.WithError("page size must not be negative"))
 	}
 	return ip, ip.parsePageToken(xp.Token)
 }
